@@ -138,9 +138,22 @@ def gen_history(seed, tier):
         es = {"patience": p, "min_delta": md}
     if fe is None and es is None and r.random() < 0.5:
         max_cycles = r.choice([1, L, L + 1])
-    return {"kind": "C04", "seed": seed, "minmax": r.choice(["min", "min", "max"]), "init": init, "script": rows,
-            "lookup": lookup,
-            "max_cycles": max_cycles, "fitness_error": fe, "early_stopping": es}
+    d = {"kind": "C04", "seed": seed, "minmax": r.choice(["min", "min", "max"]), "init": init, "script": rows,
+         "lookup": lookup,
+         "max_cycles": max_cycles, "fitness_error": fe, "early_stopping": es}
+    # the instance may have been used before, under other stop criteria (own stream: the histories above stay as they were)
+    rp = random.Random(H(seed, "c04-prior"))
+    if rp.random() < 0.25:
+        prior = []
+        for _ in range(rp.choice([1, 1, 2])):
+            pe = None
+            if rp.random() < 0.5:
+                pe = {"patience": rp.choice([1, 2, 3, 4]), "min_delta": rp.choice([1e-4, 1e-2, 1.0, delta * 2])}
+            prior.append({"max_cycles": rp.choice([1, 2, L, L + 3, max_cycles, max_cycles + 2]),
+                          "fitness_error": rp.choice([None, None, 0.0, min(finite), max(finite) + 1.0]),
+                          "early_stopping": pe, "reconfigure": rp.random() < 0.5})
+        d["prior"] = prior
+    return d
 
 
 # ----------------------------------------------------------------------------- execution
@@ -171,6 +184,20 @@ def run_scripted(desc):
                                script=script, table=table)
     with Session(desc["seed"], step_cap=400_000) as s:
         opt = cl["ScriptedOptimizer"](cfg)
+        for i, pr in enumerate(desc.get("prior") or []):
+            # earlier runs on the same instance, ended by whatever criterion their configuration had
+            pes = pv.EarlyStopping(**pr["early_stopping"]) if pr["early_stopping"] else None
+            pcfg = cl["ScriptedConfig"](population_size=len(desc["init"]), max_cycles=pr["max_cycles"],
+                                        fitness_error=pr["fitness_error"], early_stopping=pes, init=desc["init"],
+                                        script=script, table=table)
+            if pr.get("reconfigure"):
+                opt.set_config_parameters(pcfg.model_dump())
+            else:
+                opt = cl["ScriptedOptimizer"](pcfg)
+            s.call(opt, tasks.build_task(tdesc), entropy_label=("c04-prior", i))
+            s.sim.count("prior_runs_on_instance")
+            if pr.get("reconfigure") or i == len(desc["prior"]) - 1:
+                opt.set_config_parameters(cfg.model_dump())
         r = s.call(opt, tasks.build_task(tdesc), entropy_label="c04")
         digest = s.sim.digest()
         nevents = s.sim.nevents
@@ -228,7 +255,8 @@ def run_job(job):
     return {"i": job["i"], "seed": job["seed"], "kind": "scripted", "violations": vs, "desc": desc if vs else None,
             "digest": st["digest"], "nevents": st["nevents"], "steps": st["steps"], "decided_by": st["decided_by"],
             "histkey": json.dumps([desc["script"], desc["max_cycles"], desc["fitness_error"], desc["early_stopping"],
-                                   desc["minmax"]]), "wall": time.time() - t0}
+                                   desc["minmax"], desc.get("prior")]), "wall": time.time() - t0,
+            "prior_runs": len(desc.get("prior") or [])}
 
 
 def replay(pid, desc):
@@ -269,6 +297,10 @@ def _c04_candidates(d):
         c = copy.deepcopy(d)
         c["script"] = c["script"][1:]
         yield c
+    if d.get("prior"):
+        c = copy.deepcopy(d)
+        c["prior"] = c["prior"][:-1]
+        yield c
     if d["early_stopping"] is not None:
         c = copy.deepcopy(d)
         c["early_stopping"] = None
@@ -308,6 +340,7 @@ def evidence(pid, tier, seed, jobs, results, good, wall):
                 "= at least one cycle executed",
         "samples": samples, "scripted_histories": len(sg), "observational_runs": len(og),
         "criterion_that_decided_scripted_runs": decided,
+        "scripted_cases_on_a_used_instance": sum(1 for j, r in sg if r.get("prior_runs")),
         "seeds": {"verif_seed": seed, "first": jobs[0]["seed"], "last": jobs[-1]["seed"]},
         "simulated_time": {"events_logical_ticks": events, "optimizer_cycles": cycles},
         "faults_fired": fired,
